@@ -5,9 +5,10 @@
     Theorems quantify over ALL programs (dumped operand facts), root selections and fuels; the finite facts about the
     regenerated tables are re-proved by [vm_compute] on every run.
 
-    The two statements that depend on whether the checked tree still has the defect [defer-go-call-args]
-    ([operand_cover_refuted] / [operand_cover_holds]) live in coq/variants/c18/{Refuted,Repaired}.v: exactly one of
-    them compiles, tools/props/c18.py reports which. *)
+    The statements that depend on whether the checked tree has the defects [defer-go-call-args] / [iface-assert-widening]
+    live in coq/variants/c18/{DeferRefuted,DeferRepaired,AssertRefuted,AssertRepaired,Sound}.v: of each Refuted/Repaired
+    pair exactly one compiles, Sound.v (the unconditional soundness theorem of the checked tree) compiles iff both
+    defects are repaired; tools/props/c18.py reports the state and alarms when a defect that is not a listed finding is back. *)
 From Coq Require Import List PArith Bool FMapPositive.
 From Argot Require Import Model.Reach Model.ReachGen Proofs.Reach Proofs.ReachTables.
 Import ListNotations.
@@ -72,6 +73,13 @@ Theorem reach_sound : forall T P s fuel out,
     forall f, executed T (index P) (roots s P) f -> In f out.
 Proof. exact Proofs.Reach.reach_sound. Qed.
 
+(** ... and without the side condition when findCallees also resolves interface-to-interface assertions *)
+Theorem reach_sound_full : forall T P s fuel out,
+    operand_cover T = true -> assert_case T = true -> wf_ops T P = true ->
+    reach_prog T P s fuel = Done out ->
+    forall f, executed T (index P) (roots s P) f -> In f out.
+Proof. exact Proofs.Reach.reach_sound_full. Qed.
+
 (** ** the checked tree (regenerated tables) *)
 
 Theorem tables_in_schema : tables_wf gen_tables = true.
@@ -94,7 +102,7 @@ Proof. intros P s fuel out. exact (Proofs.Reach.reach_contains_cg gen_tables P s
 Theorem reach_gaps_only_known : forall P s fuel out,
     wf_ops gen_tables P = true -> reach_prog gen_tables P s fuel = Done out ->
     forall g, In g (cert_gaps gen_tables (index P) (roots s P) out) -> gap_excused known_uncovered true g = true.
-Proof. intros P s fuel out. exact (reach_gaps_excused gen_tables known_uncovered P s fuel out Proofs.ReachTables.operand_cover_except_known). Qed.
+Proof. intros P s fuel out. exact (reach_gaps_excused_weak gen_tables known_uncovered P s fuel out Proofs.ReachTables.operand_cover_except_known). Qed.
 
 (** conservativeness of the checked tree on every program where neither of the two occurs *)
 Theorem reach_sound_partial : forall P s fuel out,
@@ -102,13 +110,6 @@ Theorem reach_sound_partial : forall P s fuel out,
     (forall g, In g (cert_gaps gen_tables (index P) (roots s P) out) -> gap_excused known_uncovered true g = false) ->
     forall f, executed gen_tables (index P) (roots s P) f -> In f out.
 Proof. intros P s fuel out. exact (reach_sound_except gen_tables known_uncovered P s fuel out Proofs.ReachTables.operand_cover_except_known). Qed.
-
-(** the unrestricted statement is refuted by the faithful model (finding iface-assert-widening):
-    [var a A = T{}; a.(B).N()] executes T.N, which is not reported *)
-Theorem reach_sound_refuted_iface_assert :
-  exists P s f out, wf_ops gen_tables P = true /\ reach_prog gen_tables P s (prog_fuel P) = Done out
-                    /\ executed gen_tables (index P) (roots s P) f /\ ~ In f out.
-Proof. exact Proofs.ReachTables.reach_sound_refuted_iface_assert. Qed.
 
 (** ** non-vacuity *)
 
@@ -132,3 +133,7 @@ Proof. exact ex_ok_noroots. Qed.
 Example defer_program_executes_hidden :
   wf_ops gen_tables ex_defer = true /\ executed gen_tables (index ex_defer) (roots all_roots ex_defer) 3%positive.
 Proof. split; [exact (proj2 ex_defer_wf) | exact ex_defer_executed]. Qed.
+
+Example assert_program_executes_method :
+  wf_ops gen_tables ex_widen = true /\ executed gen_tables (index ex_widen) (roots all_roots ex_widen) 3%positive.
+Proof. split; [exact (proj2 ex_widen_wf) | exact ex_widen_executed]. Qed.
